@@ -581,6 +581,19 @@ def b_int_from_bytes(ex, state, args, kwargs, sv):
 
 # ------------------------------------------------------------------------------------------ bytes / str
 
+@builtin("bytes.isascii")
+def b_bytes_isascii(ex, state, args, kwargs, sv):
+    """b.isascii(): every octet is below 128 (true for the empty string)"""
+    if not isinstance(sv, VBytes):
+        raise Unsupported("isascii on %r" % (sv,))
+    i = z3.Int(fresh_name("asc_i"))
+    n = z3.Length(sv.t)
+    # bytes are sequences of Int octets in this encoding
+    elem = sv.t[i]
+    body = z3.Implies(z3.And(i >= 0, i < n), (elem < 128) if elem.sort() == z3.IntSort() else z3.ULT(elem, 128))
+    return VBool(z3.ForAll([i], body))
+
+
 @builtin("bytes.find")
 def b_bytes_find(ex, state, args, kwargs, sv):
     sub = args[0]
